@@ -183,3 +183,10 @@ func init() {
 		}
 	}
 }
+
+var rowRe = regexp.MustCompile(`\("([A-Z0-9_]+)", *[0-9x]+, *[0-9]+, *([0-9]+)\)`)
+
+func readFile(p string) (string, error) {
+	b, err := os.ReadFile(p)
+	return string(b), err
+}
